@@ -180,10 +180,10 @@ def derivedStep (cfg : Cfg) (st : Db × Dict Nat) (f : Feature) : Py (Db × Dict
   match db.insert row with
   | .ok db => pure (db, auto)
   | .error _ =>
-    let (fixed, _, db, auto) ← doMerge cfg db auto f id .merge
-    match fixed with
-    | some fx => pure (db.modifyRow (fx.id.getD id) (fun r => { r with attrs := fx.attrs }), auto)
-    | none => pure (db, auto)
+    let (fixed, final, db, auto) ← doMerge cfg db auto f id .merge
+    match final, fixed with
+    | .merge, some fx => pure (db.modifyRow (fx.id.getD id) (fun r => { r with attrs := fx.attrs }), auto)
+    | _, _ => pure (db, auto)
 
 theorem derivedStep_ext (cfg : Cfg) (st st' : Db × Dict Nat) (f : Feature)
     (hs : derivedStep cfg st f = .ok st') : Ext st.2 st'.2 := by
